@@ -13,7 +13,7 @@ RULE = ("case = (mnemonic, unit, value, description) drawn over letters, digits,
         "MNEM .UNIT VALUE : DESCR and given to read_header_line(line, section_name); oracle: the parse equals the "
         "four generated fields exactly (inverse oracle). Special forms: all 24x60 clock times x seconds x date "
         "placement (enumerated), ~Parameter descriptions with colons, lines without a period, numeric unit + one "
-        "blank. The same lines are also read inside whole files (versions 1.2 and 2.0, three mnemonic_case modes) "
+        "blank. The same lines are also read inside whole files (versions 1.2, 2.0 and 3.0 with ordinary titles, three mnemonic_case modes) "
         "and compared with the expected items. Non-trivial: >= 2 non-empty fields besides the mnemonic and >= 1 "
         "non-minimal padding, or a special form.")
 ASSUMPTIONS = [
@@ -211,8 +211,8 @@ def oracle_file(case):
 
 @st.composite
 def files(draw):
-    v12 = draw(st.booleans())
-    vers = "1.2" if v12 else "2.0"
+    vers = draw(st.sampled_from(["1.2", "1.2", "2.0", "2.0", "3.0"]))  # 3.0: the 2.0 line layout under ordinary titles
+    v12 = vers == "1.2"
     from checks.c05 import TITLES
 
     def ttl(kind, default):
